@@ -1501,8 +1501,9 @@ static int initAggregationOutputHash(KSI_VerificationContext *info) {
 	}
 
 	if (tempData->aggregationOutputHash == NULL) {
-		KSI_AggregationHashChainList_aggregate(info->signature->aggregationChainList, info->ctx,
+		res = KSI_AggregationHashChainList_aggregate(info->signature->aggregationChainList, info->ctx,
 				(int)info->docAggrLevel, &tempData->aggregationOutputHash);
+		if (res != KSI_OK) goto cleanup;
 	}
 
 	res = KSI_OK;
